@@ -48,6 +48,32 @@ not, is a violation (exhaust() emptying the buffer: tell() past the end).
 R15 (sync) the constructor, evaluated with the length parameter bound to 0, 1
 and 5, stores exactly that value as the initial budget: a default for "no
 length" chosen by truthiness (`max_stream_len or BIG`) is a violation.
+
+Clauses added after the auto-mutation sweep (first-order mutants sa-am...):
+R1 also: the cached length is STORED after the buffer on the path (a buffer
+store without a later length store is a violation even when the difference
+involves a parameter), a provably non-zero difference is a violation; a chunk
+parameter (<x>, <x>_len) that the method splices into the buffer is left out
+only when it is provably empty.  R2 also: the gate returns without asking the
+source only when min(size, budget) <= 0; after a source call it returns only
+when the call served everything still wanted or returned the empty chunk; an
+empty chunk leaves the budget at 0.  R4 also: eof evaluated on the four cells
+{exhausted} x {drained} is the conjunction.  R6 also: a search result passed
+on as a buffer position is translated by the offset of the searched fragment.
+R7 / R10 also (frozen idiom: bytes.find returns -1 or a position >= start):
+more data is fetched only after every search of the buffered data made on the
+path has provably failed.  R8 also: when the iteration ends after a successful
+search the cursor stands at the match.  R10 also: a look-ahead chunk handed to
+a reader method stays the next data of the stream (the callee, followed two
+levels with the caller's facts, does not read the source before placing it),
+and buffered bytes up to the end of the buffer are handed on while such a chunk
+is pending only after the chunk border was searched (or len(delimiter) <= 1).
+R16 peek(): window [cursor, cursor + n), n by the size partition; short only
+at the end of the stream.  R17 None never meets `<` / arithmetic.  R18
+collecting loops: countdown used up at every exit, running total == collected,
+a non-empty backlog is part of the result.
+Not decided: readlines(hint) for hint == 0 (limit vs "no limit" is a convention
+of the reference cursor, not of the arithmetic).
 """
 
 from __future__ import annotations
@@ -105,6 +131,13 @@ class Reader:
     def writes(self, name):
         return self._writes.get(name)
 
+    def mentions(self, name):
+        """dotted attribute chains that occur in the body of method `name` (cached)"""
+        c = self.__dict__.setdefault('_mentions', {})
+        if name not in c:
+            c[name] = {dotted(n) for n in walk_self(self.methods[name].node) if isinstance(n, ast.Attribute) and dotted(n)}
+        return c[name]
+
     def len_pairs(self, f):
         """[(x, x_len)] parameter pairs following the cached-length naming convention."""
         ps = f.params()
@@ -115,8 +148,41 @@ class Reader:
 # R1 cached-length invariant
 # ---------------------------------------------------------------------------
 
+class _MemoEnv(Env):
+    """Env whose bounded proof search remembers the sub-goals it has already tried.  `_le0` is a pure function of (facts, kinds,
+    goal, depth): the memo is dropped whenever a fact / kind is added, so every answer is the one linexpr.Env gives -- only faster
+    (the plain search revisits `goal - f1 - f2` and `goal - f2 - f1` separately: cubic in the number of facts)."""
+
+    def fork(self):
+        e = Env.fork(self)
+        e.__class__ = _MemoEnv
+        return e
+
+    def _le0(self, d, depth=3):
+        if d.is_const:
+            return d.c <= 0
+        if depth <= 0:
+            return False
+        top = not self.__dict__.get('_busy')
+        memo = self.__dict__.get('_memo')
+        if top:             # (facts and kinds do not change while one proof runs)
+            stamp = (len(self.facts), len(self.kind), sum(1 for k in self.kind.values() if k == 'nat'))
+            if memo is None or memo[0] != stamp:
+                memo = self.__dict__['_memo'] = (stamp, {})
+            self.__dict__['_busy'] = True
+        try:
+            key = (frozenset(d.t.items()), d.c, depth)
+            r = memo[1].get(key)
+            if r is None:
+                r = memo[1][key] = Env._le0(self, d, depth)
+            return r
+        finally:
+            if top:
+                self.__dict__['_busy'] = False
+
+
 def _start_env(rd, f, on_call, assume_inv=True):
-    env = Env(on_call)
+    env = _MemoEnv(on_call)
     env.kind[('v', BUF)] = 'seq'
     blen, bpos = env.declare(BLEN, 'int'), env.declare(BPOS, 'int')
     if assume_inv:
@@ -125,7 +191,28 @@ def _start_env(rd, f, on_call, assume_inv=True):
         env.add_le(bpos, blen)
     for x, xl in rd.len_pairs(f):
         env.vars[xl] = Lin.atom(('len', ('v', x)))      # the declared convention, checked at every call site
+        env.kind[('len', ('v', x))] = 'nat'             # (a number: `if <x>_len:` reads as `<x>_len != 0`)
     return env
+
+
+def _int_names(f):
+    """Parameters annotated exactly `int` and locals that are counters (assigned an integer constant / advanced by `+=` / `-=`):
+    numbers, so that `if not x:` reads as `x == 0`."""
+    out = set()
+    a = f.node.args
+    for x in a.posonlyargs + a.args + a.kwonlyargs:
+        if x.annotation is not None and unparse(x.annotation) == 'int':
+            out.add(x.arg)
+    for n in walk_self(f.node):
+        sp = _step_of(n)
+        if sp is None:
+            continue
+        step = n.value if isinstance(n, ast.AugAssign) else n.value.right
+        if any(isinstance(y, (ast.Name, ast.Attribute, ast.Call)) for y in ast.walk(step)):
+            cands = [m for m in walk_self(f.node) if isinstance(m, ast.Assign) and _step_of(m) is None and any(isinstance(t, ast.Name) and t.id == sp[0] for t in m.targets)]
+            if cands and all(isinstance(m.value, ast.Constant) and isinstance(m.value.value, int) and not isinstance(m.value.value, bool) for m in cands):
+                out.add(sp[0])
+    return out
 
 
 def _inv_holds(env):
@@ -151,9 +238,12 @@ def _r1_method(run, v, rd, f):
             return
         params = set(f.params())
         if not ok and diff is not None and any((a[0] == 'v' and a[1] in params) or (a[0] == 'len' and a[1][0] == 'v' and a[1][1] in params) for a in diff.atoms()):
-            # the verdict hinges on a relation between parameters that no declared convention (<x>_len) supplies
-            v.unknown('%s: cached length depends on an undeclared relation between parameters (%r)' % (f.qual, diff))
-            return
+            # the verdict hinges on a relation between parameters that no declared convention (<x>_len) supplies -- unless the difference is
+            # provably non-zero under the path facts, or the buffer was stored and the cached length simply was NOT stored after it on this
+            # path (the two fields move together: equality could only be a coincidence between the cursor and the length of an argument)
+            if not (env.prove_lt(diff, 0) or env.prove_lt(0, diff) or env.ghost.get('len_behind')):
+                v.unknown('%s: cached length depends on an undeclared relation between parameters (%r)' % (f.qual, diff))
+                return
         v.note(f, kind, what, ok, last, '%s: %s != len(%s) %s (difference %r)' % (f.name, BLEN, BUF, at, diff), wit,
                'a read/peek after this point slices the buffer with a stale length: bytes are skipped or returned twice')
 
@@ -164,7 +254,7 @@ def _r1_method(run, v, rd, f):
             args = [env.eval(a) for a in call.args if not isinstance(a, ast.Starred)]
             kw = {k.arg: env.eval(k.value) for k in call.keywords if k.arg}
             w = rd.writes(fn.attr) or set()
-            touches = bool({BUF, BLEN, BPOS} & (w | {dotted(n) for n in walk_self(callee.node) if isinstance(n, ast.Attribute) and dotted(n)}))
+            touches = bool({BUF, BLEN, BPOS} & (w | rd.mentions(fn.attr)))
             if touches:
                 check(env, 'when %s() is called' % fn.attr)
             # cached-length parameter pairs must be passed consistently
@@ -202,6 +292,26 @@ def _r1_method(run, v, rd, f):
             tg = n.ast.targets if isinstance(n.ast, ast.Assign) else [n.ast.target]
             if any(dotted(t) in (BUF, BLEN) for t in tg):
                 env.ghost['last'] = n.ast
+            st = {dotted(x) for t in tg for x in ast.walk(t) if isinstance(x, ast.Attribute) and isinstance(x.ctx, ast.Store)}
+            if BLEN in st:
+                env.ghost['len_behind'] = False
+            elif BUF in st:
+                env.ghost['len_behind'] = True          # the buffer is stored; the cached length has not been stored since
+                val = getattr(n.ast, 'value', None)
+                used = {x.id for x in ast.walk(val) if isinstance(x, ast.Name)} if val is not None else set()
+                env.ghost['spliced'] = env.ghost.get('spliced', frozenset()) | (used & spliceable)
+
+    # a chunk handed over together with its cached length (<x>, <x>_len) that the method puts into the buffer on some path is PENDING
+    # stream data: a path that ends without storing it into the buffer must have shown it to be empty (len <= 0), or its bytes are lost
+    spliceable = set()
+    for x, _xl in rd.len_pairs(f):
+        for s_ in walk_self(f.node):
+            if isinstance(s_, (ast.Assign, ast.AugAssign, ast.AnnAssign)) and getattr(s_, 'value', None) is not None \
+                    and any(dotted(t) == BUF for t in (s_.targets if isinstance(s_, ast.Assign) else [s_.target])) \
+                    and any(isinstance(y, ast.Name) and y.id == x for y in ast.walk(s_.value)):
+                spliceable.add(x)
+    if spliceable and loop_heads(cfg):
+        v.unknown('%s: a pending chunk parameter (%s) in a method with loops is not followed' % (f.qual, ', '.join(sorted(spliceable))))
 
     for start, steps, end in segments(cfg):
         if end == cfg.xexit:
@@ -212,6 +322,12 @@ def _r1_method(run, v, rd, f):
             if any(k == 'raise' for k, _v, _n in e.log):
                 continue
             check(e, 'at the end of the path', wit)
+            if end == cfg.exit and start == cfg.entry:
+                for x in sorted(spliceable - e.ghost.get('spliced', frozenset())):
+                    v.note(f, 'pending chunk %s' % x, 'a chunk handed over to be spliced into the buffer (%s with its cached length %s_len) is left out only when it is empty'
+                           % (x, x), e.prove_le(Lin.atom(('len', ('v', x))), 0), '%s not stored into the buffer' % x,
+                           '%s: the path ends without storing %s into the buffer although len(%s) may be positive' % (f.name, x, x), wit,
+                           'BufferedReader(BytesIO(b"xyz").read, 3, 1): read_until(b"a", 1) then read() -> b"z" instead of b"yz" (a 1-byte look-ahead chunk is dropped)')
 
 
 def r1_cached_length(run):
@@ -283,16 +399,51 @@ def r2_budget(run):
             env.havoc([BUDGET], 'after ' + short(call, 30))
         return None
 
+    # "wanted": what the gate still has to deliver.  At entry it is min(<size parameter>, budget); the argument of every source call is
+    # the amount still wanted (first call: the clamped size; later calls: the previous amount minus what the previous call delivered --
+    # checked, UnknownIdiom otherwise).  On that basis the gate may come back (a) WITHOUT asking the source only when nothing is wanted
+    # (wanted <= 0), and (b) after a source call only when that call served the whole amount or returned the empty chunk (end of stream);
+    # (c) an empty chunk is the end of the stream for good: the budget is 0 afterwards (read_until & co. detect EOF through it).
+    gps = [a for a in f.params() if a != 'self']
     bexpr = _expr(BUDGET)
     for start in [cfg.entry] + sorted(cuts):
         for steps, end in paths_from(cfg, start, cuts, local_edges(cfg)):
             env = Env(on_call)
             rem0 = env.declare(BUDGET, 'int')
+            want0 = env.minmax('min', [env.var(gps[0]), rem0]) if len(gps) == 1 else None
+            asked = env.eval(call_nodes[start].args[0]) if start != cfg.entry else None
             if start != cfg.entry:      # inductive hypothesis: this call respected the budget
                 env.add_le(env.eval(call_nodes[start].args[0]), rem0)
             wit = flow.describe_path(cfg, [s[0] for s in steps])
             for e in run_steps(env, cfg, steps):
                 rem = e.eval(bexpr)
+                got1 = e.ghost.get('got', ())
+                glen = Lin.atom(('len', got1[0])) if len(got1) == 1 else None
+                rets = [n for k, _v, n in e.log if k == 'return']
+                if end in cuts and (want0 is not None or start != cfg.entry):
+                    nxt = e.eval(call_nodes[end].args[0])
+                    exp = want0 if start == cfg.entry else (asked - glen if isinstance(asked, Lin) and glen is not None else None)
+                    if not (isinstance(nxt, Lin) and exp is not None and e.prove_eq(nxt, exp)):
+                        v.unknown('%s: the amount asked from the source at %s (%r) is not read as the amount still wanted (%r)' % (f.qual, ordinal[end], nxt, exp))
+                elif end == cfg.exit and rets and not any(k == 'raise' for k, _v, _n in e.log):
+                    if start == cfg.entry:
+                        if want0 is None:
+                            v.unknown('%s: expected one size parameter' % f.qual)
+                        else:
+                            v.note(f, 'no read only when nothing is wanted', 'the gate returns without asking the source only when min(size, budget) <= 0', e.prove_le(want0, 0),
+                                   rets[-1], 'returns without a source call although %r may be positive' % (want0,), wit,
+                                   'BufferedReader(BytesIO(b"a").read, 1): read() -> b"" (a request for exactly one byte never reaches the source)')
+                    elif glen is not None and isinstance(asked, Lin):
+                        eof = e.prove_eq(glen, 0)
+                        v.note(f, 'served or EOF @%s' % ordinal[start], 'after a source call the gate returns only when the call delivered everything still wanted or '
+                               'the empty chunk (end of stream); otherwise it asks again', eof or e.prove_le(asked, glen), rets[-1],
+                               'returns although %r byte(s) may still be wanted and the source is not known to be at its end' % (asked - glen,), wit,
+                               'a source with short reads (1-byte chunks), data b"aa": read() -> b"a" (the result depends on the chunking)')
+                        if eof:
+                            v.note(f, 'EOF marked @%s' % ordinal[start], 'an empty chunk from the source ends the stream for good: the budget is 0 afterwards', isinstance(rem, Lin)
+                                   and e.prove_eq(rem, 0), rets[-1], 'the source returned the empty chunk but the budget is left at %r' % (rem,), wit,
+                                   'a delimited sub-reader (its maximum length is only an upper bound) whose data ends: read_until() without a match polls the '
+                                   'exhausted source forever; a kept sub-reader returns the parent\'s later data')
                 if end in cuts:
                     arg = e.eval(call_nodes[end].args[0])
                     ok = isinstance(arg, Lin) and isinstance(rem, Lin) and e.prove_le(arg, rem)
@@ -489,6 +640,32 @@ def r4_position(run):
     run_ok = attrs(eof) == {EXH, BLEN, BPOS}
     v.note(eof, 'eof', 'eof is expressed through _exhausted, _buffer_len and _buffer_pos only', run_ok, eof.node.body[-1],
            rw='eof is reported while unread bytes remain in the buffer (or never reported)')
+    # eof as a truth function of the two presence facts it is built from, {source exhausted} x {buffer drained}: it is their conjunction
+    # (the cursor is at the end of the stream iff nothing is buffered behind it AND nothing more will come)
+    ecfg = cfg_of(eof, p)
+    run.use_cfg(ecfg)
+    for exh in (True, False):
+        for drained in (True, False):
+            cell = '%s, %s' % ('source exhausted' if exh else 'source not exhausted', 'buffer drained' if drained else 'unread bytes buffered')
+            for steps, _end in paths_from(ecfg, ecfg.entry, loop_heads(ecfg), local_edges(ecfg)):
+                env = Env()
+                bl, bp = env.declare(BLEN, 'int'), env.declare(BPOS, 'int')
+                env.add_le(0, bp)
+                env.add_le(bp, bl)
+                env.truth[('v', EXH)] = exh
+                if not (env.add_eq(bl, bp) if drained else env.add_le(bp + Lin.const(1), bl)):
+                    continue
+                for e in run_steps(env, ecfg, steps):
+                    for k, _val, node in e.log:
+                        if k != 'return' or node.value is None:
+                            continue
+                        d = e.decide(node.value)
+                        if d is None:
+                            v.unknown('%s: `%s` is not decided for [%s]' % (eof.qual, short(node.value, 60), cell))
+                            continue
+                        v.note(eof, 'eof truth table', 'eof is True exactly when the source is exhausted and the buffer is drained (evaluated on the four cells)',
+                               d == (exh and drained), node, 'for [%s] eof is %s' % (cell, d), rw='a fresh reader over non-empty data reports eof; an exhausted '
+                               'reader that still holds peeked bytes reports eof')
     # the normalising source iterator
     init = p.func(ASYNC + '.__init__')
     srcs = [strip_await(s.value) for s in walk_self(init.node) if isinstance(s, ast.Assign) and any(dotted(t) == 'self._source' for t in s.targets)]
@@ -684,7 +861,18 @@ def _run_steps(env, cfg, steps, on_node=None):
 _SINKS = ('append', 'write')             # <container>.append(x) / <file>.write(x): x is handed out (joined into the result / piped)
 
 
+_PRELUDE_CACHE = {}
+
+
 def _stable_prelude(rd, f, loop_stmt):
+    key = (id(rd.p), rd.qual, f.qual, id(loop_stmt))
+    hit = _PRELUDE_CACHE.get(key)
+    if hit is None or hit[0] is not loop_stmt:
+        hit = _PRELUDE_CACHE[key] = (loop_stmt, _stable_prelude_uncached(rd, f, loop_stmt))
+    return hit[1]
+
+
+def _stable_prelude_uncached(rd, f, loop_stmt):
     """What the top-level statements of f in front of `loop_stmt` establish for every head of that loop:
     ('assign', stmt) for `x = <expr>` where x is stored exactly once in f, and ('guard', stmt) for `if <test>: raise ...`
     (the test is false behind it) -- <expr> / <test> built from constants, parameters that are never stored, earlier such
@@ -773,8 +961,10 @@ class _StreamModel:
     def start_env(self, start):
         env = _start_env(self.rd, self.f, self.on_call)
         env.kind[('v', DELIM)] = 'seq'
+        for nm in _int_names(self.f):
+            env.kind.setdefault(('v', nm), 'int')
         base = Lin.atom(('v', '<stream offset of _buffer[0]>'))
-        env.ghost.update(base=base, prev=base + env.var(BPOS), regions={}, srcnames=frozenset(), finds=(), lost=None, last=None, replaced=())
+        env.ghost.update(base=base, prev=base + env.var(BPOS), regions={}, srcnames=frozenset(), finds=(), lost=None, last=None, replaced=(), open=())
         for c in sorted(self.invariants.get(start, ())):
             a, b = _CANDIDATES[c](env)
             env.add_eq(a, b)
@@ -799,6 +989,7 @@ class _StreamModel:
         g['base'] = Lin.atom(fresh('stream offset'))
         g['regions'] = {}
         g['finds'] = ()
+        g['open'] = ()
         g['lost'] = g['lost'] or why
         bp = env.eval(_E_BPOS)
         g['prev'] = g['base'] + bp if isinstance(bp, Lin) else g['base']
@@ -845,6 +1036,10 @@ class _StreamModel:
         if isinstance(e, ast.Subscript) and isinstance(e.slice, ast.Slice):
             inner = self.pieces(env, e.value)
             if not any(p[0] in ('buf', 'opaque') for p in inner):
+                if len(inner) == 1 and inner[0][0] == 'src' and e.slice.lower is None and e.slice.step is None and e.slice.upper is not None:
+                    k = env.eval(e.slice.upper)
+                    if isinstance(k, Lin):
+                        return [('other', 'head', inner[0][1], k)]       # the first k bytes of a chunk fetched from the source (a border look-ahead)
                 return [('other',)]
             if any(p[0] == 'opaque' for p in inner):
                 return [('opaque', unparse(e))]
@@ -933,6 +1128,10 @@ class _StreamModel:
         base, end = g['base'], self.buffer_end(env)
         ps = self.pieces(env, s.value)
         kinds = [p[0] for p in ps]
+        if g.get('pending') and any(isinstance(x, ast.Name) and x.id in g['pending'] for x in ast.walk(s.value)):
+            g['pending'] = frozenset()                          # the chunk handed over by the caller is placed in the buffer
+        if g.get('fetch') is not None and any(p[0] == 'src' for p in ps):
+            g['fetch'] = None                                   # (R10) the fetched chunk is placed in the buffer: the border is inside the buffer now
         if self.mode == 'R9':                                   # a fetched chunk is placed once: afterwards its name is ordinary data
             g['srcnames'] = g['srcnames'] - {p[1] for p in ps if p[0] == 'src'}
         if isinstance(s, ast.AugAssign):
@@ -1079,7 +1278,13 @@ class _StreamModel:
         """A reader method that moves the buffer is called: follow it (two levels) with the caller's path facts and the actual
         arguments, so that what it hands out is checked against the searches made so far (its own searches included)."""
         g = env.ghost
-        if g.get('fetched') or g['lost'] or callee.name == 'peek' or not ({BUF, BPOS} & (self.rd.writes(callee.name) or set())):
+        # a chunk fetched from the source that is still held in a local and is handed to the callee to be placed in the buffer: PENDING
+        pend = set()
+        if self.depth == 0 and g.get('fetched') and not g['lost']:
+            b0 = _bind_call(callee, call)
+            pend = {k for k, x in (b0 or {}).items() if isinstance(x, ast.Name) and x.id in g['srcnames'] and (x in call.args or any(x is kw.value for kw in call.keywords))}
+        pending = bool(pend) or bool(g.get('pending'))
+        if (g.get('fetched') and not pending) or g['lost'] or callee.name == 'peek' or not ({BUF, BPOS} & (self.rd.writes(callee.name) or set())):
             return
         if self.depth >= 2 or callee.qual in self.stack or any(isinstance(x, (ast.Yield, ast.YieldFrom)) for x in walk_self(callee.node)):
             if self.vouching(env):
@@ -1120,11 +1325,13 @@ class _StreamModel:
             else:
                 raise UnknownIdiom('%s: `%s` leaves parameter %s of %s() unbound' % (self.f.qual, short(call, 50), nm, callee.name))
         ce.ghost.update(regions={}, srcnames=frozenset())
+        if pend:
+            ce.ghost['pending'] = frozenset(pend)
         ce.log = []
         ccfg, heads, edge_ok = sub.cfg, set(loop_heads(sub.cfg)), local_edges(sub.cfg)
 
         def done(e):
-            return bool(e.ghost['lost'] or e.ghost.get('fetched') or any(k == 'raise' for k, _v, _n in e.log))
+            return bool(e.ghost['lost'] or (e.ghost.get('fetched') and not e.ghost.get('pending')) or any(k == 'raise' for k, _v, _n in e.log))
 
         def walk(nid, envs, seen):
             for (y, l) in ccfg.succ[nid]:
@@ -1141,6 +1348,11 @@ class _StreamModel:
                 walk(y, nxt, seen | {y})
 
         walk(ccfg.entry, [ce], {ccfg.entry})
+        if pend:
+            self.v.note(self.report_f, 'pending chunk in order @%s' % unparse(call), self._PENDING_WHAT, True, call)
+
+    _PENDING_WHAT = ('a chunk fetched from the source that is handed to a reader method to be placed in the buffer stays the NEXT data of the stream: the callee (followed '
+                     'two levels with the caller\'s path facts) does not read the source again before it has stored the chunk')
 
     def on_node(self, env, n, label):
         if label == 'exc':
@@ -1163,6 +1375,8 @@ class _StreamModel:
             names = {x.id for x in ast.walk(n.stmt.target) if isinstance(x, ast.Name)}
             g['regions'] = {k: r for k, r in g['regions'].items() if k not in names}
             g['srcnames'] = g['srcnames'] - names
+            if dotted(strip_await(n.stmt.iter)) == SOURCE_IT:
+                self.fetch_check(env)
             if isinstance(n.stmt.target, ast.Name) and dotted(strip_await(n.stmt.iter)) == SOURCE_IT:
                 g['srcnames'] = g['srcnames'] | {n.stmt.target.id}
 
@@ -1177,14 +1391,32 @@ class _StreamModel:
             elif any(p[0] in ('buf', 'opaque') for ps in argp for p in ps):
                 self.lose(env, 'buffered bytes are passed to `%s`: whether that hands them out is not modelled' % short(call, 50))
         if self.mode == 'R10' and isinstance(fn, ast.Attribute) and fn.attr in _SINKS and dotted(fn.value) != 'self' and len(call.args) == 1 and not call.keywords:
-            self.tail_check(env, self.pieces(env, call.args[0]), call)
+            sp = self.pieces(env, call.args[0])
+            self.tail_check(env, sp, call)
+            ft = env.ghost.get('fetch')
+            if ft is not None and any(p[0] == 'buf' and (not p[3] or env.prove_eq(p[2], ft[0])) for p in sp):
+                self.border_check(env, call)
         if not isinstance(fn, ast.Attribute):
             return None
         recv_self = dotted(fn.value) == 'self'
         if self.mode == 'R10' and recv_self and fn.attr in self.rd.methods:
             if fn.attr in self.src_methods:
+                self.fetch_check(env)
+                if env.ghost.get('pending') and self.depth and not self.quiet:
+                    self.v.note(self.report_f, 'pending chunk in order @%s' % unparse(self.top), self._PENDING_WHAT, False, self.top,
+                                '`%s` in %s() may read the source while the chunk handed over by the caller has not been placed in the buffer: the data read now '
+                                'ends up in front of it' % (short(call, 50), self.f.name), self.wit,
+                                'BufferedReader over b"aab\\naaaa\\nb", chunk_size 5: readlines() -> [b"aab\\n", b"aa", b"aa\\n", b"b"] (a read_until that believes it has '
+                                'enough data finalises early and the final read goes to the source past the look-ahead chunk)')
+                    env.ghost['pending'] = frozenset()
                 env.ghost['fetched'] = True                    # new data: what follows is justified otherwise (end of stream, border search)
+                if self.depth == 0 and not env.ghost['lost']:
+                    cur0 = self.cursor(env)
+                    env.ghost['fetch'] = None if cur0 is None else (self.buffer_end(env), cur0)
+                    env.ghost['border'] = ()
             elif not self.quiet:
+                if any(isinstance(a, ast.Name) and a.id in env.ghost['srcnames'] for a in list(call.args) + [k.value for k in call.keywords]):
+                    self.border_check(env, call)
                 self.delegate(env, call, self.rd.methods[fn.attr])
         if not recv_self and call.args and isinstance(call.args[0], (ast.Name, ast.Attribute)):
             a0 = env.eval(call.args[0])
@@ -1195,6 +1427,8 @@ class _StreamModel:
                     raise UnknownIdiom('%s: delimiter search through .%s() is not modelled (%s)' % (self.f.qual, fn.attr, short(call, 60)))
         if recv_self and fn.attr in self.rd.methods:
             callee = self.rd.methods[fn.attr]
+            if self.mode == 'R6' and not self.quiet:
+                self.position_args(env, call, callee)
             if _inlinable(callee, call):
                 for s in callee.node.body:
                     if isinstance(s, ast.Expr) and isinstance(s.value, ast.Constant):
@@ -1257,6 +1491,7 @@ class _StreamModel:
                 return R
             starts = [g['base'] + extra[0] if extra else g['base']]
             origin, ends = g['base'], [self.buffer_end(env)]
+            org0, st0, involved = origin, starts[0], True
         else:
             ps = self.pieces(env, recv)
             if any(p[0] == 'opaque' for p in ps):
@@ -1268,6 +1503,14 @@ class _StreamModel:
                 origin, ends = ps[0][1], [ps[0][2]]
                 if extra and isinstance(extra[0], Lin) and not (extra[0].is_const and extra[0].c < 0):
                     starts = [origin + extra[0]]                # a start argument counts from the first byte of the slice
+            # the result counts from the first byte of the searched value: known when that is a tracked piece of the buffer
+            org0 = ps[0][1] if ps and ps[0][0] == 'buf' and ps[0][3] else None
+            st0 = None if org0 is None else (org0 + extra[0] if extra and isinstance(extra[0], Lin) and not (extra[0].is_const and extra[0].c < 0) else org0)
+            involved = any(p[0] == 'buf' for p in ps)
+            if self.mode == 'R10' and self.depth == 0 and g.get('fetch') is not None and len(ps) == 2 and ps[0][0] == 'buf' and ps[0][3] \
+                    and ps[1][0] == 'other' and len(ps[1]) == 4 and ps[1][1] == 'head' and ps[1][2] in g['srcnames'] and not extra:
+                # <tail of the buffer> + <first k bytes of the chunk just fetched>: a search across the chunk border
+                g['border'] = g.get('border', ()) + ((R, ps[0][1], ps[0][2], ps[1][3]),)
         if ends is not None:
             # bytes.find(sub, start, end): the WHOLE match lies in [start, end) -- a failed search says nothing
             # about a delimiter that starts before `end` and ends behind it
@@ -1284,6 +1527,8 @@ class _StreamModel:
                     if self._same(bv, env.eval(_E_BUF)) and st == covered[0] and tuple(es) == tuple(covered[1]):
                         return R0
             g['finds'] = g['finds'] + ((R, env.eval(_E_BUF), covered[0], covered[1]),)
+        if involved:      # a search of buffered data whose outcome the code has to act on: (result, call, stream offset the result counts from, start)
+            g['open'] = g['open'] + ((R, call, org0, st0),)
         if self.mode == 'R6' and not self.quiet and cur is not None:
             for st in starts:
                 ok = env.prove_le(cur, st)
@@ -1295,6 +1540,130 @@ class _StreamModel:
                             'BufferedReader(BytesIO(b"-------").read, 7, 3): read(2), read_until(b"---", 2), read() -> b"----" instead of b"---" '
                             '(a delimiter is "found" in front of the cursor and the cursor moves backwards)')
         return R
+
+    # ------------------------------------------------- outcome of a delimiter search (frozen idiom table: bytes.find / str.find return -1
+    # for "not found" and the index of the match, >= start, otherwise; .index/.rfind/... are rejected as unknown idioms in on_call)
+    def fetch_check(self, env):
+        """New data is about to be fetched from the source: every search of buffered data made on this path must have provably
+        failed (result < 0) -- a guard that sends a possible match (result 0 or 1) down the "not found" road lets the reader run
+        through a delimiter.  Decided in the method under analysis itself (not in followed callees)."""
+        g = env.ghost
+        if self.quiet or self.depth or self.mode not in ('R7', 'R10'):
+            return
+        for (R, call0, org0, st0) in g['open']:
+            failed = _is_negative(env, R)
+            if not failed:
+                # is "result >= 0" (then, by the convention of bytes.find, result >= start) compatible with the path facts at all?
+                e2 = env.fork()
+                if not e2.add_le(0, R) or (org0 is not None and st0 is not None and not e2.add_le(st0 - org0, R)) or any(e2.prove_eq(n_, 0) for n_ in e2.neq):
+                    failed = True
+            self.v.note(self.f, 'search resolved @%s' % unparse(call0),
+                        'more data is fetched from the source only after every delimiter search of the buffered data made on the way has provably failed '
+                        '(bytes.find: -1 is "not found", every result >= 0 is a match position)', failed, call0,
+                        'the source is asked for more data although the result of `%s` may be >= 0 on this path (a match at that position is treated as '
+                        '"not found")' % short(call0, 60), self.wit,
+                        'data b"a|b|c", peek(1) then read_until(b"|") -> b"a|b|c" instead of b"a" (asgi); BufferedReader(BytesIO(b"|ab").read, 3): '
+                        'read_until(b"|") -> b"|ab" instead of b"" (sync): the reader runs through a delimiter it has found')
+        g['open'] = ()
+
+    def border_check(self, env, node):
+        """(R10, the method under analysis) buffered bytes up to the end of the buffer -- or the chunk fetched behind them -- are handed on
+        while that chunk is still held in a local: a delimiter of 2+ bytes may straddle the border, so a search of
+        <last len(delimiter) - 1 buffered bytes (not in front of the cursor)> + <first len(delimiter) - 1 bytes of the chunk> must have
+        failed on this path, unless len(delimiter) <= 1 is a path fact or nothing was buffered when the chunk was fetched."""
+        g = env.ghost
+        ft = g.get('fetch')
+        if self.quiet or self.depth or self.mode != 'R10' or ft is None or g['lost']:
+            return
+        end_f, cur_f = ft
+        if env.prove_le(end_f, cur_f):
+            return
+        ok = env.prove_le(self.dl, 1)
+        why = 'no search across the chunk border was made on this path and len(delimiter) <= 1 is not a path fact'
+        for (R, lo, hi, k) in g.get('border', ()):
+            if ok:
+                break
+            v0 = lo - g['base']
+            cands = [cur_f - g['base'], end_f - g['base'] - self.dl + Lin.const(1)]
+            parts = list(v0.lone()[1]) if v0.lone() is not None and v0.lone()[0] == 'max' else [v0]
+            covers = env.prove_eq(hi, end_f) and all(any(env.prove_le(x, c) for c in cands) for x in parts) and env.prove_le(self.dl - Lin.const(1), k)
+            if covers and _is_negative(env, R):
+                ok = True
+            else:
+                why = 'the border search on this path %s' % ('may have found a match' if covers else 'does not cover the last / first len(delimiter) - 1 bytes around the border')
+        self.v.note(self.f, 'border searched @%s' % unparse(node),
+                    'buffered bytes up to the end of the buffer (or the look-ahead chunk behind them) are handed on only after the chunk border was searched for a '
+                    'straddling delimiter, or with a one-byte delimiter', ok, node, '`%s`: %s' % (short(node, 60), why), self.wit,
+                    'BufferedReader(BytesIO(b"\\naaa\\n").read, 5, 2): read_until(b"aa", 5) -> b"\\na" instead of b"\\n" (a 2-byte delimiter split across two chunks is not seen)')
+
+    def match_check(self, env, cur):
+        """(R8, asynchronous generators) the iteration ends: when a search of the buffered data has provably succeeded on this path
+        (result >= 0) the cursor stands exactly at the match -- everything in front of the delimiter has been handed out."""
+        g = env.ghost
+        for (R, call0, org0, st0) in g['open']:
+            if not env.prove_le(0, R):
+                continue
+            if org0 is None:
+                self.unknown('`%s`: the position its result counts from is not tracked' % short(call0, 60))
+                continue
+            e2 = env.fork()
+            if st0 is not None:
+                e2.add_le(st0 - org0, R)            # bytes.find(sub, start): a match lies at or behind `start`
+            ok = e2.prove_eq(cur, org0 + R)
+            self.v.note(self.f, 'cursor at the match @%s' % unparse(call0),
+                        'when the iteration over delimited data ends because the delimiter was found, the cursor stands at the match position '
+                        '(all bytes in front of the delimiter have been handed out)', ok, call0,
+                        'the generator ends with the cursor %r byte(s) from the match found by `%s` (not provably 0)' % (org0 + R - cur, short(call0, 50)), self.wit,
+                        'asgi BufferedReader over b"a|b|c": read_until(b"|") -> b"" instead of b"a"; with consume_delimiter=True a spurious DelimiterError')
+
+    def position_args(self, env, call, callee):
+        """(R6) a search result handed to a reader method as a BUFFER position (a parameter the callee compares with the cursor, or
+        re-assigns from a search of self._buffer) is translated from the coordinates of the searched value (a border fragment that
+        starts `offset` bytes into the buffer) to buffer coordinates: argument == result + (start of the searched value - start of the buffer)."""
+        pos_params = set()
+        ps = set(callee.params())
+        for n in walk_self(callee.node):
+            if isinstance(n, ast.Compare) and len(n.ops) == 1 and isinstance(n.ops[0], (ast.Eq, ast.NotEq)):
+                a, b = n.left, n.comparators[0]
+                for x, y in ((a, b), (b, a)):
+                    if dotted(x) == BPOS and isinstance(y, ast.Name) and y.id in ps:
+                        pos_params.add(y.id)
+            elif isinstance(n, ast.Assign) and len(n.targets) == 1 and isinstance(n.targets[0], ast.Name) and n.targets[0].id in ps \
+                    and isinstance(n.value, ast.Call) and isinstance(n.value.func, ast.Attribute) and n.value.func.attr == 'find' and dotted(n.value.func.value) == BUF:
+                pos_params.add(n.targets[0].id)
+        if not pos_params:
+            return
+        bound = _bind_call(callee, call)
+        if bound is None:
+            self.unknown('`%s`: argument passing not understood' % short(call, 50))
+            return
+        g = env.ghost
+        results = {R.lone(): (c0, org0) for (R, c0, org0, _st) in g['open']}
+        for pname in sorted(pos_params):
+            x = bound.get(pname)
+            if x is None or any(isinstance(c, ast.Call) for c in ast.walk(x)):
+                continue
+            val = env.eval(x)
+            if not isinstance(val, Lin) or val.is_const:
+                continue                                   # -1 / a constant: the "not found yet" sentinel
+            hits = [a for a in val.atoms() if a in results]
+            if len(hits) != 1 or val.t[hits[0]] != 1:
+                continue                                   # not (one) search result: nothing to translate
+            c0, org0 = results[hits[0]]
+            if org0 is None or g['lost']:
+                self.unknown('`%s`: the position the result of `%s` counts from is not tracked' % (short(call, 50), short(c0, 50)))
+                continue
+            shift, want = val - Lin.atom(hits[0]), org0 - g['base']
+            ok = env.prove_eq(shift, want)
+            if not ok and (shift - want).tainted():
+                self.unknown('; '.join(env.notes[-2:]))
+                continue
+            self.v.note(self.f, 'match position @%s' % unparse(call),
+                        'a search result passed on as a buffer position is translated by the offset of the searched value in the buffer '
+                        '(a border fragment starts `offset` bytes into the buffer: position = result + offset)', ok, call,
+                        'the result of `%s` counts from %r byte(s) into the buffer but %r is added to it when it is passed as `%s`' % (short(c0, 50), want, shift, pname),
+                        self.wit, 'BufferedReader(BytesIO(b"\\nabaa\\n\\n").read, 7, 3): read_until(b"baa", 4, True) -> b"" instead of b"\\na" '
+                        '(a delimiter straddling two chunks is located at the wrong buffer position)')
 
     # ----------------------------------------------------------------- yields
     @staticmethod
@@ -1372,6 +1741,11 @@ class _StreamModel:
         if self.mode == 'R9':
             self.commit(env, 'at the end of the path')
             return
+        if self.mode in ('R7', 'R10'):
+            nd = self.cfg.node(end)
+            if nd.kind == 'iter' and dotted(strip_await(nd.stmt.iter)) == SOURCE_IT:
+                self.fetch_check(env)          # the next thing that happens is that the source is asked for more
+            return
         if self.mode != 'R8' or self.quiet:
             return
         g = env.ghost
@@ -1381,6 +1755,8 @@ class _StreamModel:
         cur = self.cursor(env)
         if cur is None:
             return
+        if end == self.cfg.exit:
+            self.match_check(env, cur)
         ok = env.prove_eq(g['prev'], cur)
         self.v.note(self.f, 'cursor between hand-outs', 'between hand-outs the cursor keeps its stream position (trimming / replacing the buffer does not move it)',
                     ok, g['last'] if g['last'] is not None else self.f.name,
@@ -1390,6 +1766,17 @@ class _StreamModel:
     # ------------------------------------------------------------------ driver
     def infer_invariants(self):
         """Houdini over _CANDIDATES: {loop head: names of the candidates that hold at every arrival}; nothing is reported."""
+        ck = (id(self.run.project), self.f.qual, 'R10' if self.mode == 'R10' else '*')      # (only R10 starts its segments behind a prelude)
+        hit = _INV_CACHE.get(ck)
+        if hit is not None and hit[0] is self.cfg:
+            self.invariants = {h: set(cs) for h, cs in hit[1].items()}
+            self.quiet = True
+            return self.invariants
+        inv = self._infer_invariants()
+        _INV_CACHE[ck] = (self.cfg, {h: set(cs) for h, cs in inv.items()})
+        return inv
+
+    def _infer_invariants(self):
         cfg = self.cfg
         segs = list(segments(cfg))
         inv = self.invariants = {h: set(_CANDIDATES) for h in loop_heads(cfg)}
@@ -1424,6 +1811,8 @@ class _StreamModel:
                     continue
                 self.on_end(e, end)
 
+
+_INV_CACHE = {}
 
 _MODEL_ASSUMPTION = ('C14 R6-R8: class invariant 0 <= _buffer_pos <= _buffer_len == len(_buffer) at every method entry, loop head and suspension point (R1); '
                      'a generator of the reader is not interleaved with other operations on the same reader while it is suspended '
@@ -2111,7 +2500,7 @@ def _r13_method(run, v, rd, f, skipped, invariants=None, decide_stale=False):
             for a in list(call.args) + [k.value for k in call.keywords]:
                 env.eval(a.value if isinstance(a, ast.Starred) else a)
             w = rd.writes(fn.attr) or set()
-            touches = bool({BUF, BLEN, BPOS} & (w | {dotted(n) for n in walk_self(callee.node) if isinstance(n, ast.Attribute) and dotted(n)}))
+            touches = bool({BUF, BLEN, BPOS} & (w | rd.mentions(fn.attr)))
             if touches:
                 check(env, 'when %s() is called' % fn.attr)
             hv = [a for a in (BUF, BLEN, BPOS, BUDGET) if a in w]
@@ -2580,13 +2969,684 @@ def r15_declared_length_is_the_budget(run):
         run.extra['c14_r15_no_length'] = ['not read']
 
 
+# ---------------------------------------------------------------------------
+# R16 peek(): the window [cursor, cursor + n) with n decided by the size partition (added after the auto-mutation seeds sa-am006xx /
+# sa-am0315x-0316x / sa-am03245: one flipped comparison / dropped operand / changed default in peek's normalisation)
+# ---------------------------------------------------------------------------
+# peek(size) of the flat cursor returns data[pos : pos + n] where n = chunk_size for a negative size (the default -- "as much as one
+# chunk") and for a size above chunk_size, and n = size for 0 <= size <= chunk_size; it is shorter than n only at the end of the
+# stream.  Decided per cell of the size partition {default, -1, < -1, 0, [1, chunk_size], > chunk_size} with the linear evaluator
+# (chunk_size >= 1):
+#   (a) the slice returned starts at the cursor (offset _buffer_pos of the buffer as it is at the return; a loop over the source is
+#       entered with the cursor at 0 only if that is an inductive invariant);
+#   (b) its width is the n of the cell.  Behind a loop the width must be a parameter / local that is not stored from the loop on, and
+#       its value on arrival at the loop is what is compared;
+#   (c) when the method returns without having asked for more data (no call of a reader method that reads the source, the source
+#       iterator not run dry) the buffered bytes behind the cursor cover the window.
+
+def _fetchers(rd):
+    """names of the reader methods through which the source is read (closed over self-calls)"""
+    out = {n for n, g in rd.methods.items() if n != '__init__' and any(
+        isinstance(x, ast.Attribute) and isinstance(x.ctx, ast.Load) and dotted(x) in (SOURCE_FN, SOURCE_IT) for x in walk_self(g.node))}
+    changed = True
+    while changed:
+        changed = False
+        for n, g in rd.methods.items():
+            if n in out or n == '__init__':
+                continue
+            if any(isinstance(c, ast.Call) and isinstance(c.func, ast.Attribute) and dotted(c.func.value) == 'self' and c.func.attr in out for c in walk_self(g.node)):
+                out.add(n)
+                changed = True
+    return out
+
+
+def _peek_cells(default):
+    cells = [
+        ('size == -1', lambda e, s, ch: e.add_eq(s, -1), lambda s, ch: ch),
+        ('size < -1', lambda e, s, ch: e.add_le(s, -2), lambda s, ch: ch),
+        ('size == 0', lambda e, s, ch: e.add_eq(s, 0), lambda s, ch: Lin.const(0)),
+        ('size in [1, chunk_size]', lambda e, s, ch: e.add_le(1, s) and e.add_le(s, ch), lambda s, ch: s),
+        ('size > chunk_size', lambda e, s, ch: e.add_le(ch + Lin.const(1), s), lambda s, ch: ch),
+    ]
+    if default is not None:
+        cells.insert(0, ('size left out (default %d)' % default, lambda e, s, ch: e.add_eq(s, default), lambda s, ch: ch))
+    return cells
+
+
+def _r16_reader(run, v, rd):
+    p = run.project
+    f = rd.methods.get('peek')
+    if f is None:
+        raise AnchorError('%s.peek not found' % rd.qual)
+    if CAP not in f.params():
+        raise AnchorError('%s.peek has no `%s` parameter' % (rd.qual, CAP))
+    a = f.node.args
+    names = [x.arg for x in a.posonlyargs + a.args]
+    dflt = dict(zip(names[len(names) - len(a.defaults):], a.defaults)).get(CAP) if a.defaults else None
+    default = None
+    if dflt is not None:
+        default = p.fold(f.module, dflt, None, f)
+        if isinstance(dflt, ast.UnaryOp) and isinstance(dflt.op, ast.USub) and isinstance(dflt.operand, ast.Constant) and isinstance(dflt.operand.value, int):
+            default = -dflt.operand.value
+        if isinstance(default, bool) or not isinstance(default, int):
+            raise UnknownIdiom('%s: default of `%s` (%s) is not an integer constant' % (f.qual, CAP, short(dflt, 30)))
+    model = _StreamModel(run, v, rd, f, 'PEEK')
+    model.infer_invariants()
+    cfg = model.cfg
+    heads = set(loop_heads(cfg))
+    fetchers = _fetchers(rd)
+    after_loop = flow.reachable(cfg, sorted(heads)) if heads else set()
+    stored_late = set()
+    for nid in after_loop:
+        n = cfg.node(nid)
+        if n.kind in ('stmt', 'test', 'iter', 'with'):
+            stored_late |= {x.id for x in n.walk() if isinstance(x, ast.Name) and isinstance(x.ctx, (ast.Store, ast.Del))}
+        if n.kind == 'iter':
+            stored_late |= {x.id for x in ast.walk(n.stmt.target) if isinstance(x, ast.Name)}
+    segs = list(segments(cfg))
+    rw = 'peek() / peek(-1) / peek(chunk_size + 1) return up to chunk_size bytes from the cursor, peek(0) returns b"", peek(n) the next n bytes; ' \
+         'the mutant returns b"" / the whole buffer / bytes in front of the cursor'
+
+    def on_node_factory(found):
+        def on_node(env, n, label):
+            if label != 'exc':
+                if n.kind == 'iter' and label == 'done' and dotted(strip_await(n.stmt.iter)) == SOURCE_IT:
+                    env.ghost['dry'] = True
+                if n.kind in ('stmt', 'test') and any(isinstance(c.func, ast.Attribute) and dotted(c.func.value) == 'self' and c.func.attr in fetchers for c in n.calls()):
+                    env.ghost['refilled'] = True
+                if n.kind == 'stmt' and isinstance(n.ast, ast.Return) and n.ast.value is not None:
+                    ps = model.pieces(env, n.ast.value)
+                    cur = model.cursor(env)
+                    if len(ps) == 1 and ps[0][0] == 'const' and ps[0][1] == 0:
+                        found.append((n.ast, env.fork(), cur, cur, cur))          # b'': the empty window at the cursor
+                    elif len(ps) != 1 or ps[0][0] != 'buf' or not ps[0][3] or cur is None:
+                        v.unknown('%s: `%s` is not read as one slice of the buffer' % (f.qual, short(n.ast, 60)))
+                    else:
+                        found.append((n.ast, env.fork(), cur, ps[0][1], ps[0][2]))
+            model.on_node(env, n, label)
+        return on_node
+
+    def judge(e, node, cur, lo, hi, wit):
+        d = lo - cur
+        ok = e.prove_eq(lo, cur)
+        if not ok and d.tainted():
+            v.unknown('%s: %s' % (f.qual, '; '.join(e.notes[-2:]) or repr(d)))
+        else:
+            v.note(f, 'window starts at the cursor', 'the slice peek() returns starts at the cursor', ok, node,
+                   'the slice returned starts %r byte(s) from the cursor (not provably 0)' % (d,), wit,
+                   'asgi reader: read(1) served from a buffer of 2+ bytes, then peek() returns the byte already consumed again')
+        if not (e.ghost.get('dry') or e.ghost.get('refilled')):
+            have = model.buffer_end(e) - cur
+            ok = e.prove_le(hi - lo, have)
+            if not ok and (have - (hi - lo)).tainted():
+                v.unknown('%s: %s' % (f.qual, '; '.join(e.notes[-2:])))
+            else:
+                v.note(f, 'short only at the end of the stream', 'peek() returns without asking the source for more only when the buffered bytes behind the cursor cover '
+                       'the window (a loop over the source is left early only then)', ok, '%s [buffered >= window]' % unparse(node),
+                       'the method returns a window of %r byte(s) with %r byte(s) buffered behind the cursor and the source neither asked nor run dry' % (hi - lo, have),
+                       wit, 'asgi reader over chunks [b"ab", b"cd"]: peek(3) returns b"ab" although more data follows; eof never becomes True')
+
+    arrivals = {}            # (cell, loop head) -> [env]
+    cells = _peek_cells(default)
+    for cname, setup, expect in cells:
+        n_ret = 0
+        for start, steps, end in segs:
+            if start != cfg.entry or end == cfg.xexit:
+                continue
+            wit = flow.describe_path(cfg, [s_[0] for s_ in steps])
+            for e0 in model.start_envs(start):
+                ch = e0.declare(CHUNK, 'nat')
+                sz = e0.declare(CAP, 'int')
+                e0.is_none[('v', CAP)] = False
+                if not (e0.add_le(1, ch) and setup(e0, sz, ch)):
+                    continue
+                found = []
+                outs = _run_steps(e0, cfg, steps, on_node_factory(found))
+                want = expect(sz, ch)
+                for (node, e, cur, lo, hi) in found:
+                    n_ret += 1
+                    judge(e, node, cur, lo, hi, wit)
+                    w = hi - lo
+                    ok = e.prove_eq(w, want)
+                    if not ok and (w - want).tainted():
+                        v.unknown('%s: %s' % (f.qual, '; '.join(e.notes[-2:])))
+                        continue
+                    v.note(f, 'window width [%s]' % cname, 'for %s peek() returns the window of %s bytes at the cursor' % (
+                        cname, 'chunk_size' if want == ch else ('`size`' if want == sz else '0')), ok, '%s [%s]' % (unparse(node), cname),
+                        'for %s the slice returned is %r byte(s) wide, expected %r' % (cname, w, want), wit, rw)
+                if end in heads:
+                    arrivals.setdefault((cname, end), []).extend((e, wit) for e in outs if not any(k == 'raise' for k, _v, _n in e.log))
+        if not n_ret and not any(k[0] == cname for k in arrivals):
+            v.unknown('%s: no path of peek() completes for %s' % (f.qual, cname))
+    for start, steps, end in segs:
+        if start == cfg.entry or end == cfg.xexit:
+            continue
+        wit = flow.describe_path(cfg, [s_[0] for s_ in steps])
+        for e0 in model.start_envs(start):
+            e0.declare(CHUNK, 'nat')
+            found = []
+            _run_steps(e0, cfg, steps, on_node_factory(found))
+            for (node, e, cur, lo, hi) in found:
+                judge(e, node, cur, lo, hi, wit)
+                w = hi - lo
+                a = w.lone()
+                if a is None or a[0] != 'v' or '.' in a[1] or a[1] in stored_late:
+                    v.unknown('%s: behind the loop the width of `%s` (%r) is not a parameter / local that is fixed in front of the loop' % (f.qual, short(node, 50), w))
+                    continue
+                for cname, setup, expect in cells:
+                    for (ea, awit) in arrivals.get((cname, start), ()):
+                        val = ea.vars.get(a[1], Lin.atom(a))
+                        want = expect(ea.var(CAP), ea.var(CHUNK))
+                        ok = isinstance(val, Lin) and ea.prove_eq(val, want)
+                        v.note(f, 'window width [%s]' % cname, 'for %s peek() returns the window of chunk_size / `size` / 0 bytes at the cursor' % cname, ok,
+                               '%s [%s]' % (unparse(node), cname), 'for %s the loop is entered with %s = %r, expected %r' % (cname, a[1], val, want), awit, rw)
+
+
+def r16_peek_window(run):
+    """peek(size) returns data[cursor : cursor + n], n by the size partition (negative / default and oversize -> chunk_size, 0 -> 0, else size),
+    and is short only at the end of the stream.  W: peek() -> b'' (default 0); peek(chunk_size + 1) -> more than a chunk; peek(0) -> a chunk."""
+    v = Verdicts(run)
+    run.assume('C14 R16: chunk_size >= 1; on entry 0 <= _buffer_pos <= _buffer_len == len(_buffer) (R1, R13); a reader method that reads the source '
+               'fills the buffer as far as the stream allows (its own obligation): behind such a call a short window is not judged')
+    for qual in (SYNC, ASYNC):
+        _r16_reader(run, v, Reader(run.project, qual))
+    v.flush()
+
+
+# ---------------------------------------------------------------------------
+# R17 None is normalised before it meets a number (type partition of the Optional parameters; added after sa-am00744 / sa-am00745:
+# `size_hint=size` / `size and 0` hand read(None)'s None to `0 < size_hint < ...`)
+# ---------------------------------------------------------------------------
+# A parameter of a PUBLIC reader method that is declared Optional (annotation `Optional[...]` / `... | None`, or default None) has None
+# in its domain: read(None) reads everything on the flat cursor.  `None < 1`, `None - 1` raise TypeError, so on every feasible path
+# (linear evaluator, short-circuit of and/or/conditional expressions respected) the None value must not reach an ordering comparison
+# or arithmetic -- in the method itself or in a reader method it is handed to (argument nullness: `x or 0` is not None, `x and 0`
+# and `x` are; followed for three levels).  Equality / identity tests and truthiness are fine.
+
+_ORDERING = (ast.Lt, ast.LtE, ast.Gt, ast.GtE)
+_ARITH = (ast.Add, ast.Sub, ast.Mult, ast.FloorDiv, ast.Mod, ast.Div)
+
+
+def _optional_params(f):
+    a = f.node.args
+    pos = a.posonlyargs + a.args
+    dflt = dict(zip([x.arg for x in pos][len(pos) - len(a.defaults):], a.defaults)) if a.defaults else {}
+    dflt.update({x.arg: d for x, d in zip(a.kwonlyargs, a.kw_defaults) if d is not None})
+    out = []
+    for x in pos + a.kwonlyargs:
+        if x.arg == 'self':
+            continue
+        ann = unparse(x.annotation) if x.annotation is not None else ''
+        d = dflt.get(x.arg)
+        if 'Optional[' in ann or 'None' in ann.replace(' ', '').split('|') or (isinstance(d, ast.Constant) and d.value is None):
+            out.append(x.arg)
+    return out
+
+
+class _NoneFlow:
+    def __init__(self, run, rd):
+        self.run, self.rd, self.p = run, rd, run.project
+        self.memo = {}
+
+    @staticmethod
+    def is_none(env, val):
+        return val is NONE or (isinstance(val, Lin) and val.lone() is not None and env.is_none.get(val.lone()) is True)
+
+    def nullness(self, env, e):
+        """'none' when the expression certainly evaluates to None on this path, 'notnone' when certainly not, else 'maybe'."""
+        e = strip_await(e)
+        if isinstance(e, ast.Constant):
+            return 'none' if e.value is None else 'notnone'
+        if isinstance(e, (ast.Name, ast.Attribute)):
+            val = env.eval(e)
+            if self.is_none(env, val):
+                return 'none'
+            if isinstance(val, Lin) and val.lone() is not None and env.is_none.get(val.lone()) is False:
+                return 'notnone'
+            return 'maybe' if isinstance(val, Lin) and val.lone() is not None and val.lone()[0] in ('v', 'sym') and env.kind.get(val.lone()) is None else 'notnone'
+        if isinstance(e, ast.BoolOp):
+            for i, x in enumerate(e.values):
+                n = self.nullness(env, x)
+                if isinstance(e.op, ast.Or):
+                    if n == 'none':
+                        continue                    # falsy: the next operand decides
+                    return 'notnone' if (n == 'notnone' and all(self.nullness(env, y) == 'notnone' for y in e.values[i + 1:])) else 'maybe'
+                if n == 'none':
+                    return 'none'                   # `None and x` is None
+                if not (isinstance(x, ast.Constant) and x.value):
+                    return 'maybe'
+            return 'none' if isinstance(e.op, ast.Or) else 'notnone'
+        if isinstance(e, ast.IfExp):
+            d = env.decide(e.test)
+            if d is not None:
+                return self.nullness(env, e.body if d else e.orelse)
+            return 'maybe'
+        return 'notnone'
+
+    def scan(self, env, e, f, hits, depth, stack):
+        """Walk an expression in evaluation order; record (node, text) where a None operand meets an ordering comparison / arithmetic."""
+        if isinstance(e, (ast.Lambda, ast.GeneratorExp, ast.ListComp, ast.SetComp, ast.DictComp)):
+            return
+        if isinstance(e, ast.BoolOp):
+            envs = [env]
+            for x in e.values:
+                for e1 in envs:
+                    self.scan(e1, x, f, hits, depth, stack)
+                envs = [e2 for e1 in envs for e2 in e1.assume(x, isinstance(e.op, ast.And))]
+                if not envs:
+                    break
+            return
+        if isinstance(e, ast.IfExp):
+            self.scan(env, e.test, f, hits, depth, stack)
+            for e1 in env.assume(e.test, True):
+                self.scan(e1, e.body, f, hits, depth, stack)
+            for e1 in env.assume(e.test, False):
+                self.scan(e1, e.orelse, f, hits, depth, stack)
+            return
+        if isinstance(e, ast.Compare):
+            left = e.left
+            self.scan(env, left, f, hits, depth, stack)
+            for op, right in zip(e.ops, e.comparators):
+                self.scan(env, right, f, hits, depth, stack)
+                if isinstance(op, _ORDERING) and (self.nullness(env, left) == 'none' or self.nullness(env, right) == 'none'):
+                    hits.append((e, '`%s` in %s() compares None with a number' % (short(e, 50), f.name)))
+                    return
+                left = right
+            return
+        if isinstance(e, ast.BinOp) and isinstance(e.op, _ARITH):
+            self.scan(env, e.left, f, hits, depth, stack)
+            self.scan(env, e.right, f, hits, depth, stack)
+            if self.nullness(env, e.left) == 'none' or self.nullness(env, e.right) == 'none':
+                hits.append((e, '`%s` in %s() computes with None' % (short(e, 50), f.name)))
+            return
+        if isinstance(e, ast.Call):
+            c = e
+            fn = c.func
+            if isinstance(fn, ast.Attribute) and dotted(fn.value) == 'self' and fn.attr in self.rd.methods:
+                for a in list(c.args) + [k.value for k in c.keywords]:
+                    self.scan(env, a.value if isinstance(a, ast.Starred) else a, f, hits, depth, stack)
+                callee = self.rd.methods[fn.attr]
+                bound = _bind_call(callee, c)
+                if bound is None:
+                    return
+                nones = frozenset(k for k, x in bound.items() if x in c.args or any(x is kw.value for kw in c.keywords) if self.nullness(env, x) == 'none')
+                if nones and depth < 3 and callee.qual not in stack:
+                    for (_n, text) in self.method(callee, nones, depth + 1, stack + (callee.qual,)):
+                        hits.append((c, '%s (reached through `%s` with %s = None)' % (text, short(c, 50), ', '.join(sorted(nones)))))
+                return
+        for sub in ast.iter_child_nodes(e):
+            if isinstance(sub, ast.expr):
+                self.scan(env, sub, f, hits, depth, stack)
+
+    def method(self, f, nones, depth=0, stack=()):
+        """[(node in f, text)] for the parameters `nones` of f bound to None."""
+        key = (f.qual, nones)
+        if key in self.memo:
+            return self.memo[key]
+        self.memo[key] = []
+        cfg = cfg_of(f, self.p)
+        self.run.use_cfg(cfg)
+        stored = {x.id for x in walk_self(f.node) if isinstance(x, ast.Name) and isinstance(x.ctx, (ast.Store, ast.Del))}
+        stored |= {y.id for x in walk_self(f.node) if isinstance(x, (ast.For, ast.AsyncFor)) for y in ast.walk(x.target) if isinstance(y, ast.Name)}
+        hits, seen = [], set()
+
+        def on_node(env, n, label):
+            if label == 'exc' or n.kind not in ('stmt', 'test'):
+                return
+            found = []
+            if n.kind == 'test':
+                self.scan(env, n.ast, f, found, depth, stack)
+            else:
+                st = n.ast
+                if isinstance(st, ast.AugAssign) and isinstance(st.op, _ARITH):
+                    self.scan(env, st.value, f, found, depth, stack)
+                    if self.nullness(env, st.target) == 'none' or self.nullness(env, st.value) == 'none':
+                        found.append((st, '`%s` in %s() computes with None' % (short(st, 50), f.name)))
+                else:
+                    for sub in ast.iter_child_nodes(st):
+                        if isinstance(sub, ast.expr) and not (isinstance(sub, (ast.Name, ast.Attribute, ast.Tuple)) and isinstance(getattr(sub, 'ctx', None), ast.Store)):
+                            self.scan(env, sub, f, found, depth, stack)
+            for (node, text) in found:
+                k = (id(node), text)
+                if k not in seen:
+                    seen.add(k)
+                    hits.append((node, text))
+
+        for start, steps, end in segments(cfg):
+            env = Env()
+            for nm in nones:
+                if start == cfg.entry or nm not in stored:
+                    env.is_none[('v', nm)] = True
+            run_steps(env, cfg, steps, on_node)
+        self.memo[key] = hits
+        return hits
+
+
+def r17_none_before_ordering(run):
+    """read(None) & co.: a None argument of a public reader method never reaches `<` / `<=` / `>` / `>=` or arithmetic (TypeError) -- it is
+    normalised first (`is None` test, `x or 0`).  W: asgi read(None) with buffered data raises TypeError in `0 < size_hint < ...`."""
+    v = Verdicts(run)
+    n = 0
+    for qual in (SYNC, ASYNC):
+        rd = Reader(run.project, qual)
+        nf = _NoneFlow(run, rd)
+        for name, f in sorted(rd.methods.items()):
+            if name.startswith('_') and not (name.startswith('__') and name.endswith('__')):
+                continue
+            for prm in _optional_params(f):
+                n += 1
+                hits = nf.method(f, frozenset([prm]), 0, (f.qual,))
+                v.note(f, 'None handled @%s' % prm, 'with the Optional parameter `%s` = None no ordering comparison / arithmetic sees the None '
+                       '(in the method and in the reader methods the value is handed to)' % prm, not hits, hits[0][0] if hits else f.name,
+                       '%s = None: %s' % (prm, hits[0][1]) if hits else None,
+                       rw='asgi BufferedReader with peeked data: await read(None) raises TypeError (`<` not supported between int and NoneType) where the flat '
+                          'cursor returns the rest of the stream')
+    if n < 4:
+        raise AnchorError('fewer than 4 Optional parameters on the public methods of the readers')
+    v.flush()
+
+
+# ---------------------------------------------------------------------------
+# R18 collecting loops: countdown, running total and backlog (added after sa-am03328, sa-am00727, sa-am03226, sa-am03281)
+# ---------------------------------------------------------------------------
+# A method that collects data piecewise (`<sink>.append(x)` / `<sink>.write(x)` in a loop) under a cap keeps one of two counters:
+#   * a COUNTDOWN  (`X -= ...` in the loop; X = bytes still wanted).  The loop is left -- by its condition or by `break` -- only when
+#     nothing is wanted any more (X at the loop head minus what this iteration handed to the sinks is <= 0), when the iterator it
+#     runs over is exhausted, or when the piece just obtained from a reader method is empty.  (A loop left by `return` is not judged
+#     here; the source gate has its own clause in R2.)
+#   * a RUNNING TOTAL  (`Y += ...` in the loop; Y = bytes collected).  It starts at what has been collected before the loop (0) and
+#     every iteration that advances it advances it by exactly the length handed to the sinks on that path.
+# A (sink, running total) pair handed to another reader method (the backlog and `have_bytes` of _finalize_read_until) keeps its meaning
+# there: a path of the callee whose return value does not include the joined backlog has proved the total to be 0.
+
+def _step_of(st):
+    """(name, '+' | '-') for `x += e` / `x -= e` / `x = x + e` / `x = x - e`, else None."""
+    if isinstance(st, ast.AugAssign) and isinstance(st.target, ast.Name) and isinstance(st.op, (ast.Add, ast.Sub)):
+        return st.target.id, '+' if isinstance(st.op, ast.Add) else '-'
+    if isinstance(st, ast.Assign) and len(st.targets) == 1 and isinstance(st.targets[0], ast.Name) and isinstance(st.value, ast.BinOp) \
+            and isinstance(st.value.op, (ast.Add, ast.Sub)) and isinstance(st.value.left, ast.Name) and st.value.left.id == st.targets[0].id:
+        return st.targets[0].id, '+' if isinstance(st.value.op, ast.Add) else '-'
+    return None
+
+
+def _is_sink_call(call):
+    fn = call.func
+    return isinstance(fn, ast.Attribute) and fn.attr in _SINKS and isinstance(fn.value, ast.Name) and len(call.args) == 1 and not call.keywords
+
+
+class _CollectModel:
+    def __init__(self, run, v, rd, f):
+        self.run, self.v, self.rd, self.f = run, v, rd, f
+        self.cfg = cfg_of(f, run.project)
+        run.use_cfg(self.cfg)
+        self.loops = {}         # head node id -> (loop stmt, countdown names, total names)
+        for h in loop_heads(self.cfg):
+            lp = self.cfg.node(h).stmt
+            body = [x for st in lp.body for x in walk_self(st)]
+            if not any(isinstance(x, ast.Call) and _is_sink_call(x) for x in body):
+                continue
+            aug = [(x, _step_of(x)) for x in body if _step_of(x) is not None]
+            down = sorted({sp[0] for _x, sp in aug if sp[1] == '-'})
+            up = sorted({sp[0] for x, sp in aug if sp[1] == '+' and not any(isinstance(y, ast.Call) and _is_sink_call(y) for y in ast.walk(x))})
+            # (a local that accumulates bytes, `chunk += item`, is not a counter: counters are compared / passed on as numbers)
+            up = [y for y in up if not any(isinstance(c, ast.Call) and _is_sink_call(c) and isinstance(c.args[0], ast.Name) and c.args[0].id == y for c in body)]
+            if down or up:
+                self.loops[h] = (lp, down, up)
+        self.pairs = set()       # (sink name, total name) verified in this method
+
+    def start_env(self):
+        env = _start_env(self.rd, self.f, self.on_call)
+        env.declare(CHUNK, 'nat')
+        env.ghost.update(app=Lin.const(0), per={}, got=())
+        return env
+
+    def on_call(self, env, call):
+        fn = call.func
+        g = env.ghost
+        if _is_sink_call(call) and fn.value.id != 'self':
+            ln = env.length(env.eval(call.args[0]), short(call.args[0], 30))
+            g['app'] = g['app'] + ln
+            g['per'] = {**g['per'], fn.value.id: g['per'].get(fn.value.id, Lin.const(0)) + ln}
+            return NONE
+        if isinstance(fn, ast.Attribute) and dotted(fn.value) == 'self' and fn.attr in self.rd.methods:
+            for a in list(call.args) + [k.value for k in call.keywords]:
+                env.eval(a.value if isinstance(a, ast.Starred) else a)
+            hv = [a for a in (BUF, BLEN, BPOS) if a in (self.rd.writes(fn.attr) or set())]
+            if hv:
+                env.havoc(hv, 'after %s' % fn.attr)
+                nb = env.vars[BUF].lone() if BUF in env.vars and isinstance(env.vars[BUF], Lin) else None
+                if BUF in hv and nb is not None:
+                    env.kind[nb] = 'seq'
+                env.add_eq(env.eval(_E_BLEN), env.length(env.eval(_E_BUF), BUF))
+                env.add_le(0, env.eval(_E_BPOS))
+                env.add_le(env.eval(_E_BPOS), env.eval(_E_BLEN))
+            r = fresh('result of ' + short(call, 30))
+            env.kind[r] = 'seq'
+            g['got'] = g['got'] + (r,)
+            return Lin.atom(r)
+        if isinstance(fn, ast.Attribute) and dotted(fn.value) == 'self':
+            # a callable stored on the reader (the source callable): what it returns is a piece of data just obtained
+            for a in list(call.args) + [k.value for k in call.keywords]:
+                env.eval(a.value if isinstance(a, ast.Starred) else a)
+            r = fresh('result of ' + short(call, 30))
+            env.kind[r] = 'seq'
+            g['got'] = g['got'] + (r,)
+            return Lin.atom(r)
+        return None
+
+    def lower_bounds(self, segs):
+        """Houdini: the largest c in (1, 0) with `X >= c` at every arrival at the loop head, per (head, countdown name)."""
+        inv = {(h, x): 1 for h, (_lp, down, _up) in self.loops.items() for x in down}
+        changed = True
+        while changed:
+            changed = False
+            for start, steps, end in segs:
+                for (h, x), c in list(inv.items()):
+                    if h != end or c is None:
+                        continue
+                    env = self.start_env()
+                    for (h2, x2), c2 in inv.items():
+                        if h2 == start and c2 is not None:
+                            env.add_le(c2, env.var(x2))
+                    for e in _run_steps(env, self.cfg, steps):
+                        if any(k == 'raise' for k, _v, _n in e.log):
+                            continue
+                        val = e.eval(ast.Name(id=x, ctx=ast.Load()))
+                        if not (isinstance(val, Lin) and e.prove_le(inv[(h, x)], val)):
+                            inv[(h, x)] = 0 if inv[(h, x)] == 1 else None
+                            changed = True
+                            break
+        return inv
+
+    def execute(self):
+        cfg, f, v = self.cfg, self.f, self.v
+        if not self.loops:
+            return 0
+        segs = [sg for sg in segments(cfg) if sg[2] != cfg.xexit]
+        inv = self.lower_bounds(segs)
+        n_obl = 0
+        for start, steps, end in segs:
+            wit = flow.describe_path(cfg, [s_[0] for s_ in steps])
+            # ---- running totals: value on arrival from the entry, and the advance per iteration
+            ups = sorted({(h, y) for h, (_lp, _d, up) in self.loops.items() for y in up if h == end})
+            if ups:
+                env = self.start_env()
+                for (h2, x2), c2 in inv.items():
+                    if h2 == start and c2 is not None:
+                        env.add_le(c2, env.var(x2))
+                for e in _run_steps(env, cfg, steps):
+                    if any(k == 'raise' for k, _v, _n in e.log):
+                        continue
+                    for (h, y) in ups:
+                        val = e.eval(ast.Name(id=y, ctx=ast.Load()))
+                        aug = next(x for x in walk_self(self.loops[h][0]) if (_step_of(x) or ('',))[0] == y)
+                        if not isinstance(val, Lin):
+                            v.unknown('%s: %s is not a number' % (f.qual, y))
+                            continue
+                        if start == cfg.entry:
+                            n_obl += 1
+                            d = val - e.ghost['app']
+                            if d.tainted():
+                                v.unknown('%s: %s' % (f.qual, '; '.join(e.notes[-2:])))
+                                continue
+                            v.note(f, 'running total %s starts at what was collected' % y, 'the running total `%s` enters the collecting loop with the number of bytes '
+                                   'collected so far (0)' % y, e.prove_eq(val, e.ghost['app']), aug, '`%s` enters the loop as %r with %r byte(s) collected' % (y, val, e.ghost['app']),
+                                   wit, 'BufferedReader over b"ab\\ncd\\nef\\n": readlines(4) -> [b"ab\\n"] instead of [b"ab\\n", b"cd\\n"] (the total starts at 1)')
+                        elif start == h and val != e.var(y):
+                            n_obl += 1
+                            d = val - e.var(y) - e.ghost['app']
+                            if d.tainted():
+                                v.unknown('%s: %s' % (f.qual, '; '.join(e.notes[-2:])))
+                                continue
+                            ok = e.prove_eq(val - e.var(y), e.ghost['app'])
+                            v.note(f, 'running total %s advances by what is collected' % y, 'an iteration that advances the running total `%s` advances it by exactly the '
+                                   'length handed to the sinks on that path' % y, ok, aug, '`%s` advances by %r while %r byte(s) are collected' % (y, val - e.var(y), e.ghost['app']),
+                                   wit, 'read_until() joins a backlog whose recorded length is wrong: bytes are skipped or returned twice')
+                            if ok:
+                                self.pairs |= {(snk, y) for snk in e.ghost['per']}
+            # ---- countdowns: how the loop is left
+            if start not in self.loops or not self.loops[start][1]:
+                continue
+            lp, down, _up = self.loops[start]
+            head_exit = steps[0][1] in ('F', 'done')
+            has_brk = any(l == 'brk' for (_n, l) in steps)
+            if not (head_exit or has_brk):
+                continue
+            if head_exit and steps[0][1] == 'done':
+                continue                                    # the iterator is exhausted: nothing more to collect
+            for x in down:
+                env = self.start_env()
+                c = inv.get((start, x))
+                if c is not None:
+                    env.add_le(c, env.var(x))
+                x0 = env.var(x)
+                verdicts = []
+
+                def on_node(e, n, label, x0=x0, verdicts=verdicts):
+                    if label == 'brk':
+                        empty = any(e.prove_eq(Lin.atom(('len', r)), 0) for r in e.ghost['got'])
+                        left = x0 - e.ghost['app']
+                        verdicts.append((empty or e.prove_le(left, 0), left, left.tainted() and not empty, list(e.notes[-2:])))
+
+                last_test = None
+                for (nid, l) in steps:
+                    if l == 'brk':
+                        break
+                    if cfg.node(nid).kind == 'test':
+                        last_test = cfg.node(nid).ast
+                outs = _run_steps(env, cfg, steps, on_node)
+                if head_exit:
+                    for e in outs:
+                        verdicts.append((e.prove_le(x0, 0), x0, False, []))
+                    last_test = cfg.node(start).ast
+                for (ok, left, taint, notes) in verdicts:
+                    if taint:
+                        v.unknown('%s: %s' % (f.qual, '; '.join(notes) or repr(left)))
+                        continue
+                    n_obl += 1
+                    v.note(f, 'countdown %s exhausted @%s' % (x, 'loop condition' if head_exit else 'break'),
+                           'a loop that collects data under the countdown `%s` is left only when nothing is wanted any more (countdown minus what this iteration '
+                           'collected <= 0), the iterator is exhausted, or the piece just read is empty' % x, ok, last_test if last_test is not None else lp,
+                           'the loop is left with %r byte(s) still wanted (not provably <= 0)' % (left,), wit,
+                           'sync pipe_until(b"--", dest, _size=n) / read_until with a large size leaves the last byte unread; asgi read(n) with n > max join size '
+                           'returns n - 1 bytes although more data follows')
+        return n_obl
+
+
+def _backlog_consumers(run, v, rd, producer, pairs):
+    """(sink, total) pairs of `producer` handed to a reader method: in the callee a return value that leaves the backlog out needs total == 0."""
+    n = 0
+    seen = set()
+    for c in walk_self(producer.node):
+        if not (isinstance(c, ast.Call) and isinstance(c.func, ast.Attribute) and dotted(c.func.value) == 'self' and c.func.attr in rd.methods):
+            continue
+        callee = rd.methods[c.func.attr]
+        bound = _bind_call(callee, c)
+        if bound is None:
+            continue
+        for (snk, tot) in sorted(pairs):
+            ps = [k for k, x in bound.items() if isinstance(x, ast.Name) and x.id == snk]
+            pt = [k for k, x in bound.items() if isinstance(x, ast.Name) and x.id == tot]
+            if len(ps) != 1 or len(pt) != 1 or (callee.qual, ps[0], pt[0]) in seen:
+                continue
+            seen.add((callee.qual, ps[0], pt[0]))
+            P, T = ps[0], pt[0]
+            cfg = cfg_of(callee, run.project)
+            run.use_cfg(cfg)
+            if loop_heads(cfg):
+                v.unknown('%s: a backlog handed to a method with loops is not followed' % callee.qual)
+                continue
+            stores = [x.id for x in walk_self(callee.node) if isinstance(x, ast.Name) and isinstance(x.ctx, (ast.Store, ast.Del)) and x.id in (P, T)]
+            if stores:
+                v.unknown('%s: the backlog parameters %s / %s are re-assigned' % (callee.qual, P, T))
+                continue
+
+            def joins(e_):
+                return any(isinstance(y, ast.Call) and isinstance(y.func, ast.Attribute) and y.func.attr == 'join' and any(isinstance(z, ast.Name) and z.id == P for a in y.args for z in ast.walk(a))
+                           for y in ast.walk(e_))
+
+            model = _CollectModel(run, v, rd, callee)
+            for start, steps, end in segments(cfg):
+                if end != cfg.exit:
+                    continue
+                env = model.start_env()
+                env.add_le(0, env.var(T))            # a total of lengths
+                env.kind[('v', T)] = 'nat'
+                env.ghost['joined'] = frozenset()
+
+                def on_node(e, nd, label):
+                    if label == 'exc' or nd.kind != 'stmt':
+                        return
+                    st = nd.ast
+                    if isinstance(st, (ast.Assign, ast.AnnAssign)) and getattr(st, 'value', None) is not None:
+                        tg = st.targets if isinstance(st, ast.Assign) else [st.target]
+                        names = {t.id for t in tg if isinstance(t, ast.Name)}
+                        inc = joins(st.value) or any(isinstance(z, ast.Name) and z.id in e.ghost['joined'] for z in ast.walk(st.value))
+                        e.ghost['joined'] = (e.ghost['joined'] | names) if inc else (e.ghost['joined'] - names)
+                    elif isinstance(st, ast.Return) and st.value is not None:
+                        inc = joins(st.value) or any(isinstance(z, ast.Name) and z.id in e.ghost['joined'] for z in ast.walk(st.value))
+                        e.ghost['ret'] = (st, inc)
+
+                for e in _run_steps(env, cfg, steps, on_node):
+                    if any(k == 'raise' for k, _v, _n in e.log) or 'ret' not in e.ghost:
+                        continue
+                    st, inc = e.ghost['ret']
+                    n += 1
+                    v.note(callee, 'backlog %s included' % P, 'the backlog `%s` (total length `%s`, kept by %s) is part of the return value unless its total length is 0'
+                           % (P, T, producer.name), inc or e.prove_eq(e.var(T), 0), st, 'the value returned leaves the backlog out although `%s` is not provably 0' % T,
+                           flow.describe_path(cfg, [s_[0] for s_ in steps]),
+                           'BufferedReader(BytesIO(b"bb").read, 5, 1): read_until(b"a", 3) -> b"b" instead of b"bb" (a one-byte backlog is dropped)')
+    return n
+
+
+def r18_collect_loops(run):
+    """Countdown loops end only when served / source dry / empty piece; running totals equal what was collected; a backlog with a non-zero
+    total is part of the result.  W: pipe_until leaves the last byte; asgi read(n) one byte short; readlines(hint) stops early; read_until drops a byte."""
+    v = Verdicts(run)
+    run.assume('C14 R18: `<local>.append(x)` / `<local>.write(x)` hand x to the result; a loop over an iterator ends when the iterator is exhausted; '
+               'the value a reader method returns is a byte string (empty = nothing more before the delimiter / the end)')
+    n = 0
+    for qual in (SYNC, ASYNC):
+        rd = Reader(run.project, qual)
+        for name, f in sorted(rd.methods.items()):
+            if not any(isinstance(x, (ast.While, ast.For, ast.AsyncFor)) for x in walk_self(f.node)):
+                continue
+            m = _CollectModel(run, v, rd, f)
+            n += m.execute()
+            if m.pairs:
+                n += _backlog_consumers(run, v, rd, f, m.pairs)
+    if n < 6:
+        raise AnchorError('fewer than 6 countdown / running-total obligations in the collecting loops of the readers')
+    v.flush()
+
+
 def check(run):
     run.assume('C14: only falcon/util/reader.py and falcon/asgi/reader.py are decided; falcon/cyutil/reader.pyx (the compiled twin) is not analysed')
     run.extra['twin_drift_note'] = 'falcon/cyutil/reader.pyx is a hand-maintained Cython twin of falcon/util/reader.py; not parsed, not compared'
     run.rule('R1', r1_cached_length, 'cached buffer length invariant on every acyclic path', floor=8)
-    run.rule('R2', r2_budget, 'sync reader: single, clamped, accounted source reads', floor=5)
+    run.rule('R2', r2_budget, 'sync reader: single, clamped, accounted source reads; the gate asks until served, EOF is marked', floor=6)
     run.rule('R3', r3_delimiter, 'delimiter consumption is verified; delimiter length confined', floor=4)
-    run.rule('R4', r4_position, 'async reader: tell()/eof/_consumed', floor=4)
+    run.rule('R4', r4_position, 'async reader: tell()/eof/_consumed; eof is the conjunction of exhausted and drained', floor=5)
     run.rule('R5', r5_normalize, 'sync reader: size normalisation covers the domain of the size argument', floor=6)
     run.rule('R6', r6_search_start, 'no delimiter search looks at bytes in front of the cursor', floor=6)
     run.rule('R7', r7_delimiter_not_split, 'async reader: a size-capped early hand-out never splits a delimiter', floor=1)
@@ -2600,3 +3660,9 @@ def check(run):
     run.rule('R14', r14_subreader_chunk_size, 'both readers: a delimited sub-reader is constructed with the parent reader\'s chunk size', floor=2)
     run.rule('R15', r15_declared_length_is_the_budget, 'sync reader: the constructor stores the declared maximum length as the initial budget for every '
              'declared length, 0 included (evaluated on {0, 1, 5}); a truthiness default is a violation', floor=3)
+    run.rule('R16', r16_peek_window, 'both readers: peek() returns the window [cursor, cursor + n), n decided by the size partition (default / negative / oversize -> '
+             'chunk_size, 0 -> 0, else size); short only at the end of the stream', floor=10)
+    run.rule('R17', r17_none_before_ordering, 'both readers: a None argument of an Optional parameter of a public method never reaches an ordering comparison / '
+             'arithmetic (type partition; reader callees followed)', floor=6)
+    run.rule('R18', r18_collect_loops, 'both readers: collecting loops are left only when the countdown is used up / the source is dry / the piece is empty; running totals '
+             'equal what was collected; a non-empty backlog is part of the result', floor=6)
